@@ -21,7 +21,7 @@ SPEC = {
     'level': 'exploration',
     'shards': {'quick': 4, 'thorough': 16},
     'rule': ('Part 1: every sequence over {date, description, amount, location, custom a, custom b, skip} of width 1..W '
-             '(W=4 quick, 5 thorough; complete), each rendered with sampled spellings ({_}/{*}, letter case, blanks, date formats, '
+             '(W=4 quick, 6 thorough; complete), each rendered with sampled spellings ({_}/{*}, letter case, blanks, date formats, '
              '+/- prefix) and paired with valid / missing / dangling description templates; random arrangements up to width 12. '
              'Part 2: CSV files whose header cells are drawn from inspect\'s detection vocabulary, near-misses, multi-role cells, '
              'duplicates and mixed case. Non-trivial = arrangement with a skip or custom column before a required column, or a '
@@ -272,7 +272,7 @@ def run_inspect_cli(path, cwd):
 def run(rec, shard, nshards, t):
     core.import_tally()
     rnd = core.rng_for('C18', shard)
-    W = 4 if t == 'quick' else 5
+    W = 4 if t == 'quick' else 6
     # Part 1 - complete enumeration, split across shards by index
     idx = 0
     for w in range(1, W + 1):
